@@ -274,3 +274,27 @@ def owners(facts, npath, depth=0):
     for (cb, cbi, t, name) in F.calls_to(facts, lambda n, _p=base: n == _p):
         out |= owners(facts, cb.npath, depth + 1)
     return out or {npath}
+
+
+def preamble_fns(facts):
+    """The preamble phase of a connection, by what it does: the non-public async function(s) of the async layer whose body drives
+    request::Parser::parse (on the pinned tree: Token::parse_request) -- wherever it lives and whatever it is called."""
+    c = facts.__dict__.get("_preamble_fns")
+    if c is None:
+        c = set()
+        for b in facts.bodies:
+            if not b.is_coroutine or b.promoted:
+                continue
+            base = b.npath.split("::{closure")[0]
+            d = facts.fns.get(base)
+            if d is None or d.get("vis") == "pub" or not (base.startswith("async_io::") or base.startswith("<async_io::")):
+                continue
+            for blk in b.blocks:
+                t = blk["t"]
+                if t["k"] == "call" and "path" in t["func"]:
+                    import facts as F
+                    nm = F.norm(t["func"]["res"]["path"] if t["func"].get("res") else t["func"]["path"])
+                    if nm == "parser::request::Parser::parse":
+                        c.add(base)
+        facts.__dict__["_preamble_fns"] = c
+    return c
